@@ -426,7 +426,7 @@ pub fn exec(plan: &ConcPlan) -> RunOut {
                 failed.push(i);
             } else {
                 out.violations.push(viol(
-                    &["C03"],
+                    if http { &["C03", "C14"] } else { &["C03"] },
                     "conc.server_error",
                     format!("a request failed with a server error although no fault was injected: {} (batch: {})", d.resp.short(), desc(&done)),
                 ));
